@@ -26,6 +26,15 @@ def make_cases(seed: int, tier: str, n_cases: int | None = None) -> list[dict]:
     for idx in range(n):
         cs = H(seed, PROP, tier, idx)
         pkg = engine.case_package(cs, idx, corpus_every=16 if tier == "quick" else 25)
+        if idx % 16 == 2:
+            # the hand-written probe modules of vsim/probes.py (declaration forms the generator does not produce), half of the
+            # list per case, so that two such cases - one quick run - put every probe under the schedule dimensions
+            from .. import probes
+
+            names = sorted(probes.PROBES)
+            half = (idx // 16 + seed) % 2
+            pkg = probes.probe_package(names[half::2])
+            pkg["name"] = f"probes-half{half}"
         r = rng(cs, "opts")
         options = workload.pick_options(r, pkg)
         groups = list(DIM_GROUPS_QUICK)
